@@ -233,7 +233,7 @@ func init() {
 		ID: "C29", Level: "exploration",
 		Rule: "one case = one generated history with state-sync snapshots every 3-10 blocks on two producers (the second one restarted a few times); per snapshot height the metadata hash and every chunk must be byte-equal between the producers; at 2-3 snapshot heights (a payout height, a period start, a random one) a fresh node is restored through OfferSnapshot/ApplySnapshotChunk, must report the producer's (height, app hash), equal emission/versions/validators/price and export, and then executes all following blocks (payouts, price updates, pruning) with identical responses and app hashes and an equal final export; one evaluation = one snapshot pair compared, one restore compared or one follower compared at the end; distinct = (kind of comparison, kind of block)",
 		Assumptions: []string{"snapshot completion is awaited through the hook VerifWaitSnapshots; chunks are transferred unmodified"},
-		Quick: 30, Thorough: 900, MinEval: 150, MinDistinct: 6, MaxWorkers: 12,
+		Quick: 30, Thorough: 300, MinEval: 150, MinDistinct: 6, MaxWorkers: 12,
 		Run: func(ctx *WorkCtx, idx int) {
 			r := Rng(ctx.Seed, "C29", idx)
 			sc := StdScenario(idx, r, 90)
